@@ -24,7 +24,8 @@ def code_of(path, V):
 
 
 class TableLM(MixableSequentialLanguageModel):
-    def __init__(self, V, tables, D=None, dtype=torch.double, strict=False, inplace=False):
+    def __init__(self, V, tables, D=None, dtype=torch.double, strict=False, inplace=False, after_eos=None,
+                 keep_idx=False):
         """strict: never look at more of `hist` than the single token at idx - 1; the threaded state is
         trusted to describe everything before it (as a recurrent model would).  A stale or mis-routed
         state then yields the scores of a different path."""
@@ -34,6 +35,14 @@ class TableLM(MixableSequentialLanguageModel):
         # dictionary), as a model caching hidden state may do; callers must therefore never share one state
         # dictionary between independent searches / draws
         self.inplace = inplace
+        # after_eos = (eos id, mode): what the model predicts AFTER a path has emitted eos is its own business -- a search
+        # must not depend on it.  mode "zero_eos": the eos entry is -inf (the model never predicts eos twice);
+        # "dead": the whole row is -inf; "nan": the whole row is NaN
+        self.after_eos = after_eos
+        # keep_idx: the model keeps the very `idx` tensor it was handed in its state (a recurrent model may) and derives
+        # its position from it at the next step; if that stored tensor was changed behind its back (or a stale state is
+        # handed in) the position is off and the scores are those of another context (the row rotated by one)
+        self.keep_idx = keep_idx
         self.tables = tables
         self.D = D
         self.dtype = dtype
@@ -51,6 +60,8 @@ class TableLM(MixableSequentialLanguageModel):
             "code": torch.zeros(N, dtype=torch.long),
             "len": torch.zeros(N, dtype=torch.long),
         }
+        if self.after_eos is not None:
+            new["fin"] = torch.zeros(N, dtype=torch.bool)
         if self.inplace:
             prev.update(new)
             return prev
@@ -60,8 +71,13 @@ class TableLM(MixableSequentialLanguageModel):
         self.calls += 1
         N = hist.size(1)
         V = self.vocab_size
+        idx_arg = idx
         idx = idx.expand(N) if idx.dim() == 0 else idx
         code, ln = prev["code"].clone(), prev["len"].clone()
+        fin = prev["fin"].clone() if "fin" in prev else None
+        off = False
+        if self.keep_idx and "last_idx" in prev:
+            off = bool((prev["last_idx"].reshape(-1) + 1 != idx_arg.reshape(-1)).any())
         for j in range(N):
             i = int(idx[j])
             if self.strict:
@@ -69,6 +85,8 @@ class TableLM(MixableSequentialLanguageModel):
                     tok = int(hist[i - 1, j]) if i - 1 < hist.size(0) else 0
                     code[j] = code[j] * (V + 1) + min(max(tok, 0), V - 1) + 1
                     ln[j] += 1
+                    if fin is not None and tok == self.after_eos[0]:
+                        fin[j] = True
                 continue
             # fold in the tokens between the threaded length and idx (normally exactly one)
             while int(ln[j]) < i:
@@ -83,13 +101,30 @@ class TableLM(MixableSequentialLanguageModel):
             out[j] = torch.tensor(w, dtype=self.dtype).log()
             if self.D is not None:
                 out[j] -= torch.tensor(float(self.D), dtype=self.dtype).log()
+            if fin is not None and bool(fin[j]):
+                mode = self.after_eos[1]
+                if mode == "zero_eos":
+                    out[j, self.after_eos[0]] = -float("inf")
+                elif mode == "dead":
+                    out[j] = -float("inf")
+                else:
+                    out[j] = float("nan")
+        if off:
+            out = out.roll(1, 1)
+        extra = {}
+        if fin is not None:
+            extra["fin"] = fin
+        if self.keep_idx:
+            extra["last_idx"] = idx_arg  # the tensor itself, not a copy
         if self.inplace:
             prev["code"], prev["len"] = code, ln
+            prev.update(extra)
             return out, prev
-        return out, {"elem": prev["elem"], "code": code, "len": ln}
+        return out, dict({"elem": prev["elem"], "code": code, "len": ln}, **extra)
 
     def extract_by_src(self, prev, src):
-        return {k: v.index_select(0, src) for k, v in prev.items()}
+        return {k: (v if v.dim() == 0 else v.index_select(0, src)) for k, v in prev.items()}
 
     def mix_by_mask(self, prev_true, prev_false, mask):
-        return {k: torch.where(mask, prev_true[k], prev_false[k]) for k in prev_true}
+        return {k: (prev_true[k] if prev_true[k].dim() == 0 else torch.where(mask, prev_true[k], prev_false[k]))
+                for k in prev_true}
